@@ -39,13 +39,20 @@ def solve_one(job):
     log = []
     result = 'unknown'; backend = None; model = None
     t_all = time.time()
+    stages = []
     for be in backends:
+        if be == 'z3py' and timeout > 12 and len(backends) > 1:
+            stages.append(('z3py', 10.0))          # quick first attempt; the full budget is spent only after the other back ends had their turn
+        else: stages.append((be, timeout))
+    if len(backends) > 1 and timeout > 12 and 'z3py' in backends: stages.append(('z3py', timeout))
+    for be, tmo in stages:
         t = time.time()
+        timeout_ = tmo
         if be == 'z3py':
             try:
                 ctx = z3.Context()
                 s = z3.Solver(ctx=ctx)
-                s.set('timeout', int(timeout * 1000))
+                s.set('timeout', int(timeout_ * 1000))
                 s.from_string(txt)
                 r = str(s.check())
                 if r == 'sat':
@@ -58,9 +65,9 @@ def solve_one(job):
             except Exception as e:      # parser / internal error: treat as unknown for this back end
                 r = 'unknown'; log.append(('z3py', 'error:' + str(e)[:200], time.time() - t))
         elif be == 'z3cli':
-            r, dt = _run_cli(['/usr/bin/z3', f'-T:{int(timeout)}'], txt, timeout); log.append(('z3-4.8', r, dt))
+            r, dt = _run_cli(['/usr/bin/z3', f'-T:{int(timeout_)}'], txt, timeout_); log.append(('z3-4.8', r, dt))
         elif be == 'cvc5':
-            r, dt = _run_cli(['/usr/bin/cvc5', f'--tlimit={int(timeout * 1000)}', '--lang=smt2'], "(set-logic ALL)\n" + txt, timeout); log.append(('cvc5', r, dt))
+            r, dt = _run_cli(['/usr/bin/cvc5', f'--tlimit={int(timeout_ * 1000)}', '--lang=smt2', '--full-saturate-quant'], "(set-logic ALL)\n" + txt, timeout_); log.append(('cvc5', r, dt))
         else:
             continue
         if r in ('unsat', 'sat'):
@@ -68,7 +75,7 @@ def solve_one(job):
             break
     return dict(key=key, result=result, backend=backend, model=model, log=log, wall=time.time() - t_all)
 
-def discharge(obls, axioms=(), timeout=60, canary_timeout=2, jobs=None, thorough=False):
+def discharge(obls, axioms=(), timeout=60, canary_timeout=2, jobs=None, thorough=False, budgets=None):
     """obls: list of Obligation.  Returns list of result dicts in the same order."""
     jobs = jobs or min(16, os.cpu_count() or 4)
     work = []
@@ -77,7 +84,7 @@ def discharge(obls, axioms=(), timeout=60, canary_timeout=2, jobs=None, thorough
             work.append(((k, 0), to_smt2(ob, axioms), canary_timeout, True, ['z3py']))
         else:
             for c, g in enumerate(conjuncts(ob.goal)):
-                work.append(((k, c), to_smt2(ob, axioms, g), timeout, False, ['z3py', 'z3cli', 'cvc5']))
+                work.append(((k, c), to_smt2(ob, axioms, g), (budgets[k] if budgets else timeout), False, ['z3py', 'z3cli', 'cvc5']))
     if not work: return []
     if jobs == 1 or len(work) < 4:
         res = [solve_one(w) for w in work]
